@@ -327,7 +327,7 @@ def contract(target, **kw):
         cls.target = target
         for k, v in kw.items():
             setattr(cls, k, v)
-        key = getattr(cls, "key", None) or (target + "#" + cls.__name__)
+        key = cls.__dict__.get("key") or (target + "#" + cls.__name__)  # never inherit the key of a base contract
         cls.key = key
         CONTRACTS[key] = cls
         return cls
@@ -419,3 +419,13 @@ class AssumptionViolated(Exception):
 
 class NativeOnly:
     """placeholder for repository classes that cannot be imported in the tooling interpreter"""
+
+
+ARBITRARY_SOURCE = None  # set by the native replay: callable(name, T) -> value
+
+
+def arbitrary(name, t):
+    """a value chosen by the environment; natively taken from the replayed counter-model"""
+    if ARBITRARY_SOURCE is None:
+        raise RuntimeError("arbitrary() outside a replay")
+    return ARBITRARY_SOURCE(name, t)
